@@ -109,7 +109,7 @@ class StockSim(Engine):
             else:
                 kind = rng.weighted([("set_driver", 4), ("set_prms", 5), ("compute", 6), ("read", 2)])
             if kind == "set_driver":
-                op = {"op": "set_driver", "k": k, "how": rng.choice(["whole", "entry", "setitem", "scale"]), "vseed": rng.randint(0, 10 ** 6)}
+                op = {"op": "set_driver", "k": k, "how": rng.weighted([("whole", 3), ("entry", 2), ("setitem", 2), ("scale", 2), ("zero", 2)]), "vseed": rng.randint(0, 10 ** 6)}
             elif kind == "set_prms":
                 op = {"op": "set_prms", "k": k, "specs": [gen_prm_spec(rng, nd), gen_prm_spec(rng, nd)]}
                 if rng.chance(fp):
@@ -297,8 +297,11 @@ class StockSim(Engine):
         if not isinstance(stock, SimpleFlowDrivenStock):
             out["stock_by_cohort"] = np.array(stock.get_stock_by_cohort(), copy=True)
             out["outflow_by_cohort"] = np.array(stock.get_outflow_by_cohort(), copy=True)
-            out["sf"] = np.array(stock.lifetime_model.sf, copy=True)
-            out["pdf"] = np.array(stock.lifetime_model.pdf, copy=True)
+            for tab in ("sf", "pdf"):
+                try:
+                    out[tab] = np.array(getattr(stock.lifetime_model, tab), copy=True)
+                except Exception as e:  # noqa - e.g. parameters that compute() never looked at
+                    out[tab] = np.array([-1.0 - sum(map(ord, exc_class(e)))])
         return out
 
     def _drivers(self, stock):
@@ -443,7 +446,10 @@ class StockSim(Engine):
             arrs = [stock.inflow, stock.outflow] if spec["cls"] == "simple" else ([stock.inflow] if spec["cls"] == "inflow" else [stock.stock])
             for a in arrs:
                 new = np.round(rs.uniform(0.5, 10.0, size=a.values.shape), 3)
-                if op["how"] == "whole":
+                if op["how"] == "zero":
+                    a.values[...] = 0.0
+                    self._probe(st, "driver_set_to_zero")
+                elif op["how"] == "whole":
                     a.set_values(new)
                 elif op["how"] == "setitem":
                     a[...] = FlodymArray(dims=a.dims, values=new)
